@@ -94,6 +94,17 @@ def directed() -> List[Dict[str, Any]]:
                                                                     {"a": "measI", "h": 2}, {"a": "gate2", "h": 2, "h2": 3}, {"a": "flush"}]})
     D.append({"budget": 5, "nv": True, "transpile": False, "events": [{"a": "seq", "role": "create", "n": 2, "form": "context"}, {"a": "flush"}]})
     D.append({"budget": 5, "nv": True, "transpile": True, "events": [{"a": "seq", "role": "create", "n": 2, "form": "context"}, {"a": "flush"}]})
+    # keep with a fidelity constraint: attempts that take too long are cleaned up (their qubits freed) and repeated
+    for nv, tr in ((False, False), (True, False), (True, True)):
+        for role in ("create", "recv"):
+            for n in (1, 2):
+                for fail in ([], [0], [0, 1]):
+                    D.append({"budget": 5, "nv": nv, "transpile": tr, "events": [
+                        {"a": "keep", "role": role, "hs": list(range(1, n + 1)), "fid": 80, "fail": fail}, {"a": "flush"},
+                        {"a": "measD", "h": 1}, {"a": "flush"}]})
+    D.append({"budget": 4, "nv": False, "transpile": False, "events": [
+        {"a": "new", "h": 1}, {"a": "keep", "role": "create", "hs": [2, 3], "fid": 80, "fail": [0]}, {"a": "flush"},
+        {"a": "gate2", "h": 1, "h2": 3}, {"a": "free", "h": 2}, {"a": "new", "h": 4}, {"a": "flush"}]})
     return D
 
 
@@ -114,7 +125,15 @@ def _run(item):
     conn = rig.VConnection("alice", max_qubits=case["budget"], epr_sockets=[sock], nv=case["transpile"], **kw)
     conn.ex.meas_script = [0, 1] * 200
     nrecv = sum((len(e["hs"]) if e["a"] == "keep" else e["n"]) for e in case["events"] if e["a"] in ("keep", "seq") and e["role"] == "recv")
-    conn.link = rig.AutoLink(conn.ex, conn.stack, remote_streams=[])
+    attempt = {"k": 0, "n": 1, "fail": []}
+
+    def fields(i, kind):
+        # the duration ("goodness") of the LAST pair of an attempt decides whether the attempt is repeated
+        a, pos = divmod(i - attempt.get("base", 0), attempt["n"])
+        slow = a in attempt["fail"] and pos == attempt["n"] - 1
+        return {"goodness": 90000 if slow else 100}
+
+    conn.link = rig.AutoLink(conn.ex, conn.stack, remote_streams=[], fields=fields)
     handles: Dict[int, Any] = {}
     out = []
     dead = False
@@ -138,6 +157,17 @@ def _run(item):
                 handles.pop(e["h"]).measure()
             elif a == "free":
                 handles.pop(e["h"]).free()
+            elif a == "keep" and e.get("fid"):
+                n = len(e["hs"])
+                tries = len(e["fail"]) + 1
+                attempt.update(n=n, fail=list(e["fail"]), base=conn.link.seq)
+                if e["role"] == "recv":
+                    conn.link.remote.append(dict(remote=1, purpose=0, type="K", n=n * tries))
+                    conn.link.stepwise = True
+                kw2 = dict(min_fidelity_all_at_end=e["fid"], max_tries=tries + 1)
+                qs = sock.create_keep(n, **kw2) if e["role"] == "create" else sock.recv_keep(n, **kw2)
+                for h, q in zip(e["hs"], qs):
+                    handles[h] = q
             elif a == "keep":
                 n = len(e["hs"])
                 if e["role"] == "recv":
@@ -213,7 +243,7 @@ def run(prop: str, tier: str) -> int:
                 small = shrink({**cases[rid - 1], "events": prefix}, v[1], tmp)
                 prefix = small["events"]
             V.add(v[1], {"hardware": "nv" if r["nv"] else "generic", "transpiler": r["transpile"],
-                         "history": [[x["a"], x.get("h") or x.get("hs") or x.get("n") or 0, x.get("h2", 0) or x.get("form", "") or x.get("role", "")] for x in prefix]},
+                         "history": [[x["a"] + ("-min-fidelity" if x.get("fid") else ""), x.get("h") or x.get("hs") or x.get("n") or 0, x.get("h2", 0) or x.get("form", "") or x.get("role", "")] for x in prefix]},
                   f"budget {r['budget']}, {'NV' if r['nv'] else 'generic'} hardware, transpiler {r['transpile']}: after {[(x['a'], x.get('h') or x.get('hs') or x.get('n')) for x in prefix]}: {v[1]}; "
                   f"active ids {e['active']} controller allocated {e['alloc']} live handles' ids {e['liveids']} {e.get('exc', '')} {e['err']}",
                   {"budget": r["budget"], "nv": r["nv"], "transpile": r["transpile"], "events": prefix})
